@@ -183,6 +183,9 @@ func main() {
 			{Op: "staging"}, {Op: "set", K: k2, V: "02"}, {Op: "del", K: k1}, {Op: "cleanup", H: -1}, {Op: "get", K: k1}, {Op: "len"}, {Op: "sseq"}}})
 		gstats["directed-key-length-limit"]++
 	}
+	for i := 0; i < nUS/2; i++ {
+		runOne(genMerge(r))
+	}
 	nPipe := nTxn * 2
 	for i := 0; i < nPipe; i++ {
 		runOne(genPipeProgram(r, nops))
